@@ -155,6 +155,7 @@ class Cell:
     def __init__(self, idx, name, kind, m, site):
         self.idx, self.name, self.kind, self.m, self.site = idx, name, kind, m, site
         self.val = set()
+        self.init_kind = kind           # the kind its module-level initialiser(s) gave it
         self.init_false = None          # True: every module-level binding is the literal False / None / 0
 
 
@@ -214,12 +215,22 @@ class Analyzer:
             if (c.kind, c.m) != (kind, m):               # several binding sites: take the most general
                 if c.kind != kind:
                     c.kind = 'unknown' if 'const' not in (c.kind, kind) else (kind if c.kind == 'const' else c.kind)
+                    c.init_kind = c.kind
                 c.m = max(c.m, m)
             return c
         c = Cell(len(self.cells), name, kind, m, site)
         self.cells.append(c)
         self.cell_by_name[name] = c
         return c
+
+    def generalise(self, c):
+        """a cell that some function rebinds may hold any object afterwards: its kind from the module-level initialiser no longer bounds it"""
+        if c.m != INF or c.kind == 'const':
+            c.m = INF
+            if c.kind == 'const':
+                c.kind = 'unknown'
+            c.init_false = False if c.init_false is None else c.init_false
+            self.changed = True
 
     def norm(self, vals):
         out = set()
@@ -295,6 +306,11 @@ class Analyzer:
             if not explicit and self.cells[c].kind in ('func', 'class'):
                 continue
             self.write(fn, c, 'M', node, rule)
+        if explicit:
+            for v in vals:
+                if v[0] == 'EXT':                      # os.environ['X'] = .., setattr(sys, ..): process-wide state outside the five modules
+                    c = self.new_cell('ext:' + v[1], 'unknown', INF, self.site(fn, node))
+                    self.write(fn, c.idx, 'M', node, rule + ' (object of an external module)')
 
     def rec_read(self, fn, cidx):
         tgt = fn.reads if self.guard is None else fn.g_reads.setdefault(self.guard, set())
@@ -708,6 +724,7 @@ class Analyzer:
         if r[0] == 'module':
             return {('MOD', r[1])}
         if r[0] == 'ext':
+            self.check_reflection(fn, r[1], e)
             return {('EXT', r[1])}
         return set()
 
@@ -732,6 +749,7 @@ class Analyzer:
                 elif r[0] == 'ext':
                     out.add(('EXT', r[1]))
             elif v[0] == 'EXT':
+                self.check_reflection(fn, v[1] + '.' + name, node)
                 out.add(('EXT', v[1] + '.' + name))
         rest = {v for v in base if v[0] not in ('MOD', 'EXT')}
         if not rest and base:
@@ -1141,8 +1159,21 @@ class Analyzer:
             g.exec_parent = fn
         return set()
 
+    REFLECTION = ('importlib', 'sys.modules', 'sys._getframe', 'gc', 'inspect', 'ctypes', 'builtins', '__builtin__', 'pickle', 'marshal', 'runpy', 'pkgutil',
+                  'imp', 'types', 'weakref', 'threading', 'multiprocessing', 'atexit', 'signal', 'sys.settrace', 'sys.setprofile')
+
+    def check_reflection(self, fn, name, node):
+        for r in self.REFLECTION:
+            if name == r or name.startswith(r + '.'):
+                raise TranslateError('%s: cannot translate use of %s (reflection / process-wide machinery: it can reach every shared cell)' % (self.site(fn, node), name))
+
     def ext_call(self, fn, name, e, args, kw):
         """a function of a module outside the five"""
+        self.check_reflection(fn, name, e)
+        root0 = name.rsplit('.', 1)[0]
+        if name not in EXT_MUTATE_FIRST and root0 not in READONLY_EXT and root0.split('.')[0] not in READONLY_EXT and '.' in name:
+            raise TranslateError('%s: cannot translate call of %s: module %s is not in the list of external modules whose functions are known '
+                                 'not to hand out or mutate shared objects (READONLY_EXT)' % (self.site(fn, e), name, root0))
         self.externals.setdefault(name, set()).add(self.site(fn, e))
         allv = set().union(*args) if args else set()
         for v in kw.values():
@@ -1182,6 +1213,7 @@ class Analyzer:
                 self.add(c.val, vals)
                 if fn.kind != 'module':
                     self.write(fn, c.idx, 'W', node, 'global %s rebound' % t.id)
+                    self.generalise(c)
                 return
             r = self.lookup(fn, t.id)
             if r and r[0] == 'local':
@@ -1216,6 +1248,7 @@ class Analyzer:
                     c = self.cell_by_name[v[1] + '.__dict__']
                 self.add(c.val, vals)
                 self.write(fn, c.idx, 'W', node, 'attribute store on module %s: .%s' % (v[1], name))
+                self.generalise(c)
             elif v[0] == 'EXT':
                 c = self.new_cell('ext:%s.%s' % (v[1], name), 'unknown', INF, self.site(fn, node))
                 self.write(fn, c.idx, 'W', node, 'attribute store on external module %s: .%s' % (v[1], name))
@@ -1225,6 +1258,7 @@ class Analyzer:
                     c = k.attr_cells.get(name, k.cell)
                     if fn.kind != 'module' or fn.is_exec:
                         self.write(fn, c.idx, 'W', node, 'attribute store on class object %s: .%s' % (k.name, name))
+                        self.generalise(c)
             elif v[0] in ('F', 'B'):
                 fc = self.cell_by_name.get(self.funcs[v[1]].qname)
                 if fc is not None and (fn.kind != 'module' or fn.is_exec):
@@ -1284,7 +1318,6 @@ class Analyzer:
         g = None
         if self.guard is None and isinstance(st.test, (ast.Name, ast.Attribute)) and dotted(st.test):
             # `if <module-level flag>:` - the body is recorded under the guard (Shared.v SGuard)
-            cs = [v[1] for v in tv if v[0] == 'T' and v[3] == 0]
             r = None
             if isinstance(st.test, ast.Name):
                 r = self.lookup(fn, st.test.id)
@@ -1292,7 +1325,7 @@ class Analyzer:
                 b = self.ev(fn, st.test.value)
                 if len(b) == 1 and list(b)[0][0] == 'MOD':
                     r = self.lookup_global(list(b)[0][1], st.test.attr)
-            if r is not None and r[0] == 'cell' and r[1].kind == 'const' and not cs:
+            if r is not None and r[0] == 'cell' and r[1].init_kind == 'const':
                 g = r[1].idx
         if g is not None:
             self.guard = g
